@@ -27,6 +27,17 @@ Correspondence / exploration streams (each registered as an obligation):
     misrouted rule is visible).  Two references, both computed per entry independently of the
     batch and of history: the Lean `fit` model over the SynReactor table, and a fresh one-entry,
     one-process, cache-less `BatchReactor` (the property's own right-hand side).
+ b-free  the real `fit` / `worker` / `_apply_bulk` / `_RuleApplier` / `_dedupe` with only the single rule application
+    (`_apply_rule_raw`) replaced by a table - the free result function of the Lean theorems - so that the history space is
+    enumerated instead of sampled: ALL rule lists to length 4 (thorough 5) over three rule OBJECTS, two of them equal in
+    content, x dedupe x cache off/1/2/big on a three-entry batch; random sequences of 1..4 fits on one reactor (lists to 12
+    positions built as [a, b] * k / palindromes / random, one rule-list object and one entry-dict object used repeatedly,
+    one-shot iterables, `describe` / `repr` / `help` / `len` / `iter` / indexing between the fits, option settings that all
+    mean one process) and lists of more than 256 positions.  Reference: Lean `single` (= `fit` by `batch_eq_single`).
+ b''  the same with the chemistry: ONE rule graph object at several positions of the rule list (the only way the identity-keyed
+    cache ever hits inside a fit: substrate graphs are made per entry and per fit), templates chosen among those that convert
+    one pivot substrate of the batch; all lists to length 3 (thorough 4) over two such objects x dedupe x cache, random lists,
+    follow-up fits (same / permuted / rotated / doubled / other direction) with the same objects and the same list object.
  b-err  batches holding an entry that is no substrate (unparsable SMILES, non-string, dict without the key / without a
     `host_key`) and rule lists holding a non-rule: `fit` must raise (the member alone is an error - judged by type, key
     and RDKit, not by synkit) with an error kind one of the ill-formed members raises alone, for 1 and 2 entry workers;
@@ -479,6 +490,9 @@ def fit_impl(world, case):
     data = [world.subs[i] for i in case["subs"]]
     if case.get("as_dict"):
         data = [{"smi": x, "n": j} for j, x in enumerate(data)]
+        if case.get("entries_shared"):         # a repeated substrate is the SAME dict object at every position it occupies
+            one = {}
+            data = [one.setdefault(i, {"smi": world.subs[i], "n": 0}) for i in case["subs"]]
     kw = {}
     for k in ("rule_n_jobs", "parallel_rules", "allow_nested"):     # absent -> the constructor's defaults
         if k in case:
@@ -489,6 +503,7 @@ def fit_impl(world, case):
         kw["pre_filter_engine"] = case["pre_filter"]
     workers = uses_workers(case)
     shared = {}                                # rules_as == "graph_shared": one graph object per template for the whole case
+    lists = {}                                 # reuse_rule_list: one list object per distinct rule list for the whole case
     res = []
     try:
         br = BatchReactor(data, host_key="smi" if case.get("as_dict") else None, cache_enabled=case["cache_on"],
@@ -507,6 +522,14 @@ def fit_impl(world, case):
             rules = [shared[t] for t in f["rules"]]
         elif case["rules_as"] == "mixed":
             rules = [rsmi_to_its(r, core=True) if j % 2 else r for j, r in enumerate(rules)]
+        elif case["rules_as"] == "mixed_shared":   # the shared graph object at even positions, the rule's string at odd ones
+            for t in f["rules"]:
+                if t not in shared:
+                    shared[t] = rsmi_to_its(world.rules_rsmi[t], core=True)
+            rules = [world.rules_rsmi[t] if j % 2 else shared[t] for j, t in enumerate(f["rules"])]
+        if case.get("reuse_rule_list") and case["rules_as"] in ("str", "graph_shared", "mixed_shared"):
+            # the caller keeps ONE list object per distinct rule list and hands it to every fit that uses it
+            rules = lists.setdefault(tuple(f["rules"]), rules)
         # `fit(rules: Iterable)`: one-shot iterables and a tuple are documented inputs as much as a list
         form = case.get("rules_iter")
         if form == "gen":
@@ -738,8 +761,9 @@ def run_fit(ctx, world, cases, tag):
     # phase 3: gates
     for ci, (case, impl) in enumerate(zip(cases, impls)):
         models = models_of.get(ci)
-        opt = bool(case.get("alone"))
-        pre = "b':" if opt else "b:"
+        same = case.get("group") == "same-object"
+        opt = bool(case.get("alone")) and not same
+        pre = "b'':" if same else "b':" if opt else "b:"
         if models is not None:
             nonempty = sum(1 for m in models if "ok" in m["fit"] for e in m["fit"]["ok"] if e)
         else:
@@ -772,9 +796,12 @@ def run_fit(ctx, world, cases, tag):
             ctx.count("b':rule_positions", n)
             ctx.count("b':rule_positions_that_matter_for_some_entry", m)
             nontrivial = n >= 1 and m == n
+        if same:
+            nontrivial = same_object_counts(ctx, world, case)
         ctx.case(["fit", case], nontrivial,
                  sample={"stream": pre + tag, **{k: case[k] for k in ("subs", "seq", "cache_on", "cache_max", "dedupe", "n_jobs")},
-                         **{k: case[k] for k in ("rule_n_jobs", "parallel_rules", "allow_nested", "sem", "pre_filter") if k in case},
+                         **{k: case[k] for k in ("rule_n_jobs", "parallel_rules", "allow_nested", "sem", "pre_filter", "rules_as",
+                                                 "entries_shared", "reuse_rule_list") if k in case and (same or k not in ("rules_as",))},
                          "substrates": [world.subs[i] for i in case["subs"]]}
                  if len(case["subs"]) <= 3 and want_sample(ctx, pre, 2) else None)
         d = fit_check(world, case, impl, models, ctx)
@@ -801,7 +828,8 @@ def run_fit(ctx, world, cases, tag):
                        "rules_rsmi": [[world.rules_rsmi[t] for t in f["rules"]] for f in small["seq"]]},
                       {"what": d2[0], **d2[1], "stream": tag,
                        "options": {k: small.get(k) for k in ("n_jobs", "rule_n_jobs", "parallel_rules", "allow_nested", "cache_on",
-                                                             "cache_max", "dedupe", "rules_as", "sem", "pre_filter")},
+                                                             "cache_max", "dedupe", "rules_as", "sem", "pre_filter", "as_dict",
+                                                             "entries_shared", "reuse_rule_list", "rules_iter")},
                        "effective_rule_workers": eff_rule_jobs(small),
                        "rule_list_lengths": [len(f["rules"]) for f in small["seq"]]})
         if nviol(ctx) >= 4:
@@ -1087,6 +1115,492 @@ def gen_opt_cases(rnd, world, look_pairs, quick):
                             {}])
         cases.append(gen_opt_case(rnd, world, look_pairs, rnd.randint(1, 7), {"group": "one-process", "n_jobs": rnd.choice([1, 1, 0, -1]), **flags}, not quick))
     return cases
+
+
+# ---------------------------------------------------------------------- stream b'': ONE object at several positions of an input list
+# The rule-application cache is keyed by object identity and substrate graphs are made per entry and per fit: inside `fit`
+# the cache can only ever HIT when the caller's rule list holds the same rule graph object more than once.  The streams above
+# repeat templates (fresh graph per position, or distinct templates sharing objects between fits) but hardly ever put one
+# OBJECT twice into one list.  Here every rule list does, on batches in which the repeated rule (and its neighbours in the
+# list) give products, so that whatever a hit hands back - and whatever is done to the list it hands back - shows in the
+# entry's result.  The reference is as everywhere: per entry, the per-rule SynReactor table through the Lean fit model.
+SAME_PATTERNS = ["aa", "aaa", "aba", "abab", "abba", "aab", "abb", "baa", "abca", "abcabc", "abac", "aabb", "abcba", "abaa", "aaaa"]
+SAME_FOLLOW = ["same", "same", "perm", "rot", "flip", "doubled", "drop_last", "drop_first"]
+
+
+def co_hits(world, inv, sem):
+    """substrate -> sorted templates that alone give products on it (direction, semantic options)"""
+    T = {}
+    for t, ss in world.hits(inv, sem).items():
+        for s in ss:
+            T.setdefault(s, []).append(t)
+    return {s: sorted(ts) for s, ts in T.items()}
+
+
+def same_follow_up(rnd, f):
+    how = rnd.choice(SAME_FOLLOW)
+    r2, i2 = list(f["rules"]), f["inv"]
+    if how == "perm":
+        rnd.shuffle(r2)
+    elif how == "rot":
+        r2 = r2[1:] + r2[:1]
+    elif how == "flip":
+        i2 = not i2
+    elif how == "doubled" and len(r2) <= 4:
+        r2 = r2 * 2
+    elif how == "drop_last" and len(r2) > 1:
+        r2 = r2[:-1]
+    elif how == "drop_first" and len(r2) > 1:
+        r2 = r2[1:]
+    return {"rules": r2, "inv": i2}
+
+
+def gen_same_case(rnd, world, look_pairs, opts=None, max_len=7):
+    """A rule list in which some template occupies >= 2 positions (with rules_as graph_shared / mixed_shared: ONE graph object
+    at all of them), templates chosen among those that convert one `pivot` substrate of the batch (so that the results of
+    neighbouring rules of one entry are non-empty and different), plus a substrate for every template that does not."""
+    sem = rnd.choices(SEMS, weights=[8, 0, 2, 1])[0]
+    inv = rnd.random() < 0.4
+    if not world.hits(inv, sem):
+        inv = not inv
+    H, T = world.hits(inv, sem), co_hits(world, inv, sem)
+    rich = sorted(s for s in T if len(T[s]) >= 2)
+    pivot = rnd.choice(rich) if rich and rnd.random() < 0.85 else rnd.choice(sorted(T))
+    if rnd.random() < 0.6:
+        pat = list(rnd.choice([p for p in SAME_PATTERNS if len(p) <= max_len]))
+    else:
+        m = rnd.randint(1, 3)
+        letters = "abc"[:m]
+        pat = list(letters) + [rnd.choice(letters) for _ in range(rnd.randint(m + 1, max_len) - m)]
+        rnd.shuffle(pat)
+    letters = list(dict.fromkeys(pat))
+    pool = list(T[pivot])
+    rnd.shuffle(pool)
+    others = [t for t in sorted(H) if t not in pool]
+    rnd.shuffle(others)
+    if rnd.random() < 0.25 and others and len(pool) > 1:          # one template that needs its own substrate
+        pool = pool[:len(letters) - 1] + others[:1] + pool[len(letters) - 1:]
+    tpl = (pool + others)[:len(letters)]
+    while len(tpl) < len(letters):
+        tpl.append(rnd.choice(tpl))
+    if rnd.random() < 0.5:
+        rnd.shuffle(tpl)
+    rl = [tpl[letters.index(ch)] for ch in pat]
+    subs = [pivot] + [rnd.choice(H[t]) for t in dict.fromkeys(tpl) if pivot not in H[t]]
+    x = rnd.random()
+    if x < 0.35:
+        subs.append(rnd.choice(subs))                       # repeated substrate
+    elif x < 0.5:
+        subs.extend(rnd.choice(look_pairs))                 # look-alike pair: same composition
+    elif x < 0.6:
+        subs.append(rnd.randrange(len(world.subs)))         # most likely inert
+    rnd.shuffle(subs)
+    seq = [{"rules": rl, "inv": inv}]
+    y = rnd.random()
+    for _ in range(0 if y < 0.5 else (1 if y < 0.85 else 2)):
+        seq.append(same_follow_up(rnd, seq[-1]))
+    case = {"stream": "fit", "group": "same-object", "subs": subs, "seq": seq, "n_jobs": rnd.choice([1, 1, 1, 0]),
+            "cache_on": rnd.random() < 0.85, "cache_max": rnd.choice([1, 2, 3, BIG, BIG, BIG]), "dedupe": rnd.random() < 0.35,
+            "rules_as": rnd.choice(["graph_shared"] * 6 + ["mixed_shared"] * 2 + ["graph", "str", "mixed"]),
+            "as_dict": rnd.random() < 0.25, "sem": list(sem),
+            "rules_iter": rnd.choice([None, None, None, "tuple", "gen", "iter", "map"])}
+    if case["as_dict"] and rnd.random() < 0.6:
+        case["entries_shared"] = True
+    if rnd.random() < 0.5:
+        case["reuse_rule_list"] = True
+    if rnd.random() < 0.3:
+        case["alone"] = True                                # second reference: the one-entry, one-process, cache-less reactor
+    if rnd.random() < 0.08:
+        case["pre_filter"] = rnd.choice(PRE_FILTERS)
+        case["alone"] = True
+    case.update(opts or {})
+    return case
+
+
+def gen_same_exhaustive(rnd, world, max_len, alphabet=2, caches=None):
+    """ALL rule lists of length 1..max_len over `alphabet` shared rule objects that convert one pivot substrate,
+    x dedupe x cache {big, size 1, off}; batch = pivot and a second substrate.  (Pivot and templates are drawn among
+    those with at most 4 products per rule: the number of cases is what matters here, not the size of the result lists.)"""
+    cands = []
+    for inv in (False, True):
+        T = co_hits(world, inv, SEM_DEFAULT)
+        for s in sorted(T):
+            small = [t for t in T[s] if len(world.cell(s, t, inv)) <= 4]
+            if len(small) >= alphabet:
+                cands.append((inv, s, small))
+    if not cands:
+        return []
+    inv, pivot, small = rnd.choice(cands)
+    T = co_hits(world, inv, SEM_DEFAULT)
+    tpl = rnd.sample(small, alphabet)
+    second = rnd.choice(sorted(s for s in T if s != pivot and sum(len(world.cell(s, t, inv)) for t in tpl) <= 8))
+    cases = []
+    for n in range(1, max_len + 1):
+        for rl in itertools.product(tpl, repeat=n):
+            for dd in (False, True):
+                for on, mx in (caches or ((True, BIG), (True, 1), (False, BIG))):
+                    cases.append({"stream": "fit", "group": "same-object", "subs": [pivot, second],
+                                  "seq": [{"rules": list(rl), "inv": inv}], "n_jobs": 1, "cache_on": on, "cache_max": mx,
+                                  "dedupe": dd, "rules_as": "graph_shared", "as_dict": False, "sem": list(SEM_DEFAULT),
+                                  "rules_iter": None})
+    return cases
+
+
+def same_object_counts(ctx, world, case):
+    """input distribution of stream b''; -> nontrivial: in the first fit some rule OBJECT occupies >= 2 positions and gives
+    products on some entry of the batch (with the cache on and large enough: a hit that returns a non-empty list)"""
+    f = case["seq"][0]
+    sem = case_sem(case)
+    shared_pos = {}
+    for j, t in enumerate(f["rules"]):
+        if case["rules_as"] == "graph_shared" or (case["rules_as"] == "mixed_shared" and j % 2 == 0):
+            shared_pos.setdefault(t, []).append(j)
+    rep = {t: ps for t, ps in shared_pos.items() if len(ps) >= 2}
+    live = {t: ps for t, ps in rep.items() if any(world.cell(s, t, f["inv"], sem) for s in set(case["subs"]))}
+    ctx.count(f"b'':rules_as={case['rules_as']}")
+    ctx.count(f"b'':first_rule_list_length={len(f['rules'])}")
+    ctx.count(f"b'':effective_rule_workers={eff_rule_jobs(case)}")
+    ctx.count("b'':first_lists_with_a_rule_object_at_several_positions", 1 if rep else 0)
+    ctx.count("b'':...and_that_rule_gives_products_on_an_entry", 1 if live else 0)
+    if any(ps[0] == 0 and ps[-1] >= 2 for ps in live.values()):
+        ctx.count("b'':...at_position_0_and_again_at_position>=2")
+    if any(ps[-1] - ps[0] >= 2 and any(world.cell(s, t, f["inv"], sem) and any(world.cell(s, u, f["inv"], sem)
+                                                                               for u in f["rules"][ps[0] + 1:ps[-1]] if u != t)
+                                       for s in set(case["subs"])) for t, ps in live.items()):
+        ctx.count("b'':...with_another_productive_rule_of_the_same_entry_in_between")
+    if case.get("entries_shared") and len(set(case["subs"])) < len(case["subs"]):
+        ctx.count("b'':batches_with_one_entry_dict_object_at_several_positions")
+    if case.get("reuse_rule_list") and len({tuple(g["rules"]) for g in case["seq"]}) < len(case["seq"]):
+        ctx.count("b'':one_rule_list_object_handed_to_several_fits")
+    if case["cache_on"] and case["cache_max"] >= len(f["rules"]) and not case["dedupe"] and live and eff_rule_jobs(case) == 1:
+        ctx.count("b'':serial,cache_keeps_the_entry,dedupe_off,live_repeat")
+    return bool(live)
+
+
+# ---------------------------------------------------------------------- stream b-free: the real fit over a FREE result function
+# `BatchReactor.fit` / `worker` / `_apply_bulk` / `_RuleApplier` / `_dedupe` as they are, with only `_apply_rule_raw` (one
+# SynReactor run) replaced by a table `f(substrate content, rule content, direction)` - the free `f` of the Lean theorems
+# `batch_eq_single` / `cache_transparent_if_pinned`.  A case costs a millisecond, so the space the chemistry streams can only
+# sample is enumerated: every rule list to length 4 (thorough: 5) over three rule OBJECTS (two of them equal in content) x
+# dedupe x cache {off, 1, 2, big}; random call sequences (several fits on one reactor, diagnostic methods in between, lists up
+# to 12 positions, one list / one entry dict object used repeatedly, one-shot iterables) and lists of more than 256 positions.
+FREE_SMILES = ["C", "CC", "CO", "CCO", "CN", "O", "CCC", "N"]
+FREE_DIAG = ["describe", "repr", "help", "len", "iter", "getitem"]
+_FREE_KEYS = {}
+
+
+def free_key(g):
+    return tuple(sorted((str(d.get("element")), int(d.get("hcount", 0))) for _, d in g.nodes(data=True)))
+
+
+def free_keys():
+    """content of a substrate graph (as `_to_graph` makes it) -> index into FREE_SMILES"""
+    if not _FREE_KEYS:
+        from synkit.IO import smiles_to_graph
+        for i, s in enumerate(FREE_SMILES):
+            _FREE_KEYS[free_key(smiles_to_graph(s, drop_non_aam=False, use_index_as_atom_map=False))] = i
+        if len(_FREE_KEYS) != len(FREE_SMILES):
+            raise AssertionError("adapter: FREE_SMILES are not told apart by (element, hcount)")
+    return _FREE_KEYS
+
+
+def free_one_process(case):
+    o = case.get("opts") or {}
+    return max(1, int(o.get("entry_n_jobs", 1))) == 1 and not (o.get("parallel_rules") and max(1, int(o.get("rule_n_jobs", 1))) > 1)
+
+
+@contextlib.contextmanager
+def mem_guard(extra=1 << 29):
+    """Address-space cap (current size + `extra`) while a case with very long rule lists runs: a breakage that makes the result
+    grow geometrically with the list length then ends in a MemoryError of that fit (reported as a violation), not in the OOM killer."""
+    import resource
+    try:
+        with open("/proc/self/statm") as fh:
+            cur = int(fh.read().split()[0]) * resource.getpagesize()
+        old = resource.getrlimit(resource.RLIMIT_AS)
+        lim = cur + extra
+        if old[1] != resource.RLIM_INFINITY:
+            lim = min(lim, old[1])
+        resource.setrlimit(resource.RLIMIT_AS, (lim, old[1]))
+    except Exception:
+        old = None
+    try:
+        yield
+    finally:
+        if old is not None:
+            resource.setrlimit(resource.RLIMIT_AS, old)
+
+
+def free_impl(case):
+    """-> per fit: list of per-entry {'out', 'count', 'has_key', 'n_keys'} | {'error': name}"""
+    import networkx, synkit.Synthesis.Reactor.batch_reactor  # noqa: F401  (loaded before the cap: BLAS reserves its buffers at import)
+    free_keys()
+    with mem_guard():
+        return free_impl_unguarded(case)
+
+
+def free_impl_unguarded(case):
+    import networkx as nx
+    import synkit.Synthesis.Reactor.batch_reactor as br
+    if not free_one_process(case):
+        raise AssertionError("adapter: the stubbed result function does not reach worker processes")
+    table = {(s, c, bool(i)): v for s, c, i, v in case["table"]}
+    keys = free_keys()
+
+    def stub(sub, rule, inv, engine, **kw):
+        return ["p%d" % x for x in table.get((keys[free_key(sub)], rule.graph["c"], bool(inv)), [])]
+
+    saved = br._apply_rule_raw
+    br._apply_rule_raw = stub
+    try:
+        objs = [nx.Graph(c=c) for c in case["objs"]]
+        data = [FREE_SMILES[i] for i in case["data"]]
+        if case.get("as_dict"):
+            data = [{"smi": x, "n": j} for j, x in enumerate(data)]
+            if case.get("entries_shared"):
+                one = {}
+                data = [one.setdefault(i, {"smi": FREE_SMILES[i], "n": 0}) for i in case["data"]]
+        try:
+            r = br.BatchReactor(data, host_key="smi" if case.get("as_dict") else None, cache_enabled=case["cache_on"],
+                                cache_maxsize=case["cache_max"], dedupe=case["dedupe"], enable_logging=False, **(case.get("opts") or {}))
+        except Exception as e:  # noqa
+            return [{"error": "constructor:" + type(e).__name__} for _ in case["seq"]]
+        res, lists = [], {}
+        for f in case["seq"]:
+            try:
+                for m in f.get("before", []):       # public methods that report; they must not disturb what follows
+                    if m == "describe":
+                        r.describe()
+                    elif m == "repr":
+                        repr(r)
+                    elif m == "help":
+                        r.help()
+                    elif m == "len":
+                        len(r)
+                    elif m == "iter":
+                        list(r)
+                    elif m == "getitem":
+                        r[0]
+                rules = [objs[k] for k in f["rules"]]
+                if case.get("reuse_rule_list"):
+                    rules = lists.setdefault(tuple(f["rules"]), rules)
+                form = f.get("form")
+                if form == "gen":
+                    rules = (x for x in rules)
+                elif form == "iter":
+                    rules = iter(rules)
+                elif form == "map":
+                    rules = map(lambda x: x, rules)
+                elif form == "tuple":
+                    rules = tuple(rules)
+                out = r.fit(rules, invert=f["inv"])
+                key = "syn_bw" if f["inv"] else "syn_fw"
+                got = [{"out": list(o.get(key, [])), "count": o.get("count"), "has_key": key in o, "n_keys": len(o)} for o in out]
+                del out
+            except BaseException as e:
+                if isinstance(e, (KeyboardInterrupt, SystemExit)):
+                    raise
+                out = got = None
+                res.append({"error": type(e).__name__})
+                continue
+            res.append(got)
+        return res
+    finally:
+        br._apply_rule_raw = saved
+
+
+def free_model_requests(case):
+    return [{"cmd": "batch.fit", "cache_on": case["cache_on"], "cache_max": case["cache_max"], "pin": True, "dedupe": case["dedupe"],
+             "alloc": "lowest", "inv": f["inv"], "batch": case["data"], "rules": [case["objs"][k] for k in f["rules"]],
+             "table": case["table"]} for f in case["seq"]]
+
+
+def free_compare(case, impl, models, ctx=None):
+    """-> None | (text, detail).  Gate: per entry the multiset of results (and count == len); list order is counted only."""
+    for fi, (f, got, mod) in enumerate(zip(case["seq"], impl, models)):
+        if isinstance(got, dict):
+            return f"fit #{fi} raised {got['error']}", {"fit": fi}
+        if "ok" not in mod["fit"]:
+            return f"model fit #{fi} errs {mod['fit']}", {"fit": fi}
+        want = mod["single"]                       # the property's right-hand side: the rules applied to each substrate alone
+        if mod["fit"]["ok"] != want and ctx is not None:
+            ctx.count("b-free:model_fit_differs_from_model_single")    # cannot happen (theorem batch_eq_single)
+        if len(got) != len(want):
+            return f"fit #{fi} returned {len(got)} entries for {len(want)} substrates", {"fit": fi}
+        for ei, (g, w) in enumerate(zip(got, want)):
+            ws = ["p%d" % c for c in w]
+            if not g["has_key"] or g["n_keys"] != 2:
+                return f"fit #{fi} entry {ei}: result dict keys unexpected", {"fit": fi, "entry": ei}
+            if g["count"] != len(g["out"]):
+                return f"fit #{fi} entry {ei}: count {g['count']} != len(out) {len(g['out'])}", {"fit": fi, "entry": ei}
+            if g["out"] == ws:
+                if ctx is not None:
+                    ctx.count("b-free:entries_equal_as_lists")
+                continue
+            if sorted(g["out"]) == sorted(ws):
+                if ctx is not None:
+                    ctx.count("b-free:entries_equal_as_multisets_only")
+                continue
+            return (f"fit #{fi} entry {ei} ({FREE_SMILES[case['data'][ei]]}): batch result differs from the rules applied to this substrate alone",
+                    {"fit": fi, "entry": ei, "substrate": FREE_SMILES[case["data"][ei]], "batch": g["out"][:24], "alone": ws[:24],
+                     "n_batch": len(g["out"]), "n_alone": len(ws)})
+    return None
+
+
+def free_eval(ctx, case):
+    return free_compare(case, free_impl(case), ctx.lean().ok(free_model_requests(case)))
+
+
+def free_table(rnd, nsubs, contents, dense):
+    """f as rows [substrate, rule content, direction, result codes]: lists of 0..3 codes from a small alphabet, so that
+    different rules of one entry share products (de-duplication matters) and a rule may give one product twice"""
+    rows = []
+    for s in nsubs:
+        for c in contents:
+            for inv in (False, True):
+                n = rnd.choice([1, 1, 2, 2, 3]) if rnd.random() < dense else 0
+                rows.append([s, c, inv, [rnd.randint(0, 5) for _ in range(n)]])
+    return rows
+
+
+def gen_free_exhaustive(rnd, max_len):
+    """ALL rule lists of length 1..max_len over three rule objects A, B, A' (A' equal to A in content, another object)
+    x dedupe x cache {off, 1, 2, big}; batch: a substrate both rules convert, one only B converts, the first again."""
+    s0, s1 = rnd.sample(range(len(FREE_SMILES)), 2)
+    inv = rnd.random() < 0.5
+    table = free_table(rnd, [s0], [0, 1], 1.0) + [[s1, 0, False, []], [s1, 0, True, []],
+                                                   [s1, 1, inv, [rnd.randint(0, 5)]], [s1, 1, not inv, []]]
+    cases = []
+    for n in range(1, max_len + 1):
+        for rl in itertools.product(range(3), repeat=n):
+            for dd in (False, True):
+                for on, mx in ((True, BIG), (True, 1), (True, 2), (False, BIG)):
+                    cases.append({"stream": "fit_free", "objs": [0, 1, 0], "data": [s0, s1, s0], "table": table,
+                                  "seq": [{"rules": list(rl), "inv": inv}], "cache_on": on, "cache_max": mx, "dedupe": dd})
+    return cases
+
+
+def gen_free_case(rnd, big=False):
+    nobj = rnd.randint(1, 5)
+    objs = [rnd.randint(0, 3) for _ in range(nobj)]
+    if rnd.random() < 0.5:
+        objs = list(range(nobj))                               # all contents different
+    pool = rnd.sample(range(len(FREE_SMILES)), rnd.randint(1, 4))
+    data = [rnd.choice(pool) for _ in range(rnd.randint(1, 5))]
+    table = free_table(rnd, sorted(set(data)), sorted(set(objs)), 0.75)
+    seq = []
+    for _ in range(rnd.choice([1, 1, 2, 2, 3, 4])):
+        if seq and rnd.random() < 0.4:
+            f = same_follow_up(rnd, seq[-1])
+        else:
+            x = rnd.random()
+            if big:
+                rl = [rnd.randrange(nobj) for _ in range(rnd.randint(257, 330))]     # positions beyond CPython's small ints
+            elif x < 0.3:
+                base = [rnd.randrange(nobj) for _ in range(rnd.randint(1, 4))]
+                rl = base * rnd.randint(2, 3)                       # [a, b] * 2
+            elif x < 0.5:
+                base = [rnd.randrange(nobj) for _ in range(rnd.randint(1, 4))]
+                rl = base + base[::-1][1:]                          # [a, b, a]
+            else:
+                rl = [rnd.randrange(nobj) for _ in range(rnd.randint(1, 12))]
+            f = {"rules": rl, "inv": rnd.random() < 0.35}
+        f = dict(f)
+        f["form"] = rnd.choice([None, None, None, "tuple", "gen", "iter", "map"])
+        f["before"] = [rnd.choice(FREE_DIAG) for _ in range(rnd.choice([0, 0, 1, 2]))]
+        seq.append(f)
+    case = {"stream": "fit_free", "objs": objs, "data": data, "table": table, "seq": seq,
+            "cache_on": rnd.random() < 0.85, "cache_max": rnd.choice([1, 1, 2, 2, 3, 4, 7, BIG, BIG]), "dedupe": rnd.random() < 0.45}
+    if rnd.random() < 0.25:
+        case["as_dict"] = True
+        if rnd.random() < 0.6:
+            case["entries_shared"] = True
+    if rnd.random() < 0.5:
+        case["reuse_rule_list"] = True
+    if rnd.random() < 0.3:        # option settings that all mean: one process
+        case["opts"] = rnd.choice([{"entry_n_jobs": 0}, {"entry_n_jobs": -1}, {"parallel_rules": False, "rule_n_jobs": 3},
+                                   {"parallel_rules": True, "rule_n_jobs": 1}, {"parallel_rules": True, "rule_n_jobs": 0, "allow_nested": True}])
+    return case
+
+
+def free_counts(ctx, case):
+    """input distribution; -> nontrivial: in some fit a rule OBJECT occupies >= 2 positions and gives results on some entry"""
+    table = {(s, c, bool(i)): v for s, c, i, v in case["table"]}
+    live = first_again = False
+    for f in case["seq"]:
+        pos = {}
+        for j, k in enumerate(f["rules"]):
+            pos.setdefault(k, []).append(j)
+        for k, ps in pos.items():
+            if len(ps) >= 2 and any(table.get((s, case["objs"][k], bool(f["inv"]))) for s in set(case["data"])):
+                live = True
+                first_again |= ps[0] == 0 and ps[-1] >= 2
+        ctx.count("b-free:rule_positions", len(f["rules"]))
+        ctx.count(f"b-free:rules_handed_over_as={f.get('form') or 'list'}")
+        ctx.count("b-free:diagnostic_calls_before_a_fit", len(f.get("before", [])))
+        if len(f["rules"]) > 256:
+            ctx.count("b-free:rule_lists_longer_than_256")
+    ctx.count("b-free:fits", len(case["seq"]))
+    ctx.count(f"b-free:cache_{'on' if case['cache_on'] else 'off'}")
+    ctx.count(f"b-free:cache_max={case['cache_max'] if case['cache_max'] < BIG else 'big'}")
+    ctx.count(f"b-free:dedupe_{'on' if case['dedupe'] else 'off'}")
+    ctx.count("b-free:cases_with_a_live_repeated_rule_object", 1 if live else 0)
+    ctx.count("b-free:...at_position_0_and_again_at_position>=2", 1 if first_again else 0)
+    if len(set(case["objs"])) < len(case["objs"]):
+        ctx.count("b-free:cases_with_two_rule_objects_of_equal_content")
+    if case.get("entries_shared") and len(set(case["data"])) < len(case["data"]):
+        ctx.count("b-free:batches_with_one_entry_dict_object_at_several_positions")
+    if case.get("reuse_rule_list") and len({tuple(g["rules"]) for g in case["seq"]}) < len(case["seq"]):
+        ctx.count("b-free:one_rule_list_object_handed_to_several_fits")
+    return live
+
+
+def run_fit_free(ctx, cases, tag):
+    impls = [free_impl(c) for c in cases]
+    reqs, where = [], []
+    for c in cases:
+        rr = free_model_requests(c)
+        where.append((len(reqs), len(rr)))
+        reqs.extend(rr)
+    ans = ctx.lean().ok(reqs, shards=8) if reqs else []
+    for case, impl, (a, n) in zip(cases, impls, where):
+        models = ans[a:a + n]
+        nontrivial = free_counts(ctx, case)
+        ctx.case(["fit_free", case], nontrivial,
+                 sample={**{k: v for k, v in case.items() if k != "table"}, "stream": "b-free:" + tag,
+                         "substrates": [FREE_SMILES[i] for i in case["data"]]}
+                 if nontrivial and len(case["seq"]) >= 2 and want_sample(ctx, "b-free:", 1) else None)
+        d = free_compare(case, impl, models, ctx)
+        if d is None:
+            continue
+
+        def fails(c):
+            if not c["data"] or not c["seq"] or any(not f["rules"] for f in c["seq"]):
+                return False
+            return free_eval(ctx, c) is not None
+        small = dict(case)
+        small["seq"] = shrink_seq(case["seq"], lambda ss: fails({**small, "seq": ss}), budget=20)
+        small["data"] = shrink_seq(small["data"], lambda dd: fails({**small, "data": dd}), budget=20)
+        for i in range(len(small["seq"])):
+            def with_rules(rr, i=i):
+                seq = [dict(f) for f in small["seq"]]
+                seq[i]["rules"] = rr
+                return {**small, "seq": seq}
+            small = with_rules(shrink_seq(small["seq"][i]["rules"], lambda r: fails(with_rules(r)),
+                                          budget=60 if len(small["seq"][i]["rules"]) <= 64 else 25))
+        used = {(s, small["objs"][k]) for s in small["data"] for f in small["seq"] for k in f["rules"]}
+        small["table"] = [row for row in small["table"] if (row[0], row[1]) in used and row[3]]
+        if not fails(small):
+            small = case
+        d2 = free_eval(ctx, small) or d
+        ctx.violation("BatchReactor.fit result for an entry differs from applying the rules to that substrate alone "
+                      "(result function of one rule application replaced by a table; fit, worker, _apply_bulk, the cache and _dedupe are the real code)",
+                      {**small, "substrates": [FREE_SMILES[i] for i in small["data"]]},
+                      {"what": d2[0], **d2[1], "stream": tag,
+                       "reading": "objs[k] = content code of rule object k; rules = object indices (an index listed twice is ONE graph "
+                                  "object at two positions); table rows = [substrate index, rule content, invert, results of that rule alone]"})
+        if nviol(ctx) >= 4:
+            return
 
 
 def run_dedupe(ctx, rnd, n):
@@ -2175,6 +2689,8 @@ def run_one(ctx, case, tag):
         eval_validate_case(ctx, case)
     elif st == "balance_opt":
         eval_balance_case(ctx, case)
+    elif st == "fit_free":
+        run_fit_free(ctx, [{k: v for k, v in case.items() if k != "substrates"}], tag)
     elif st == "fit_err":
         rules, subs, _ = load_corpus()
         run_fit_errors(ctx, FitWorld(rules, subs), [{k: v for k, v in case.items() if k != "data"}], tag)
@@ -2239,6 +2755,16 @@ def run(ctx):
         "x cache on/off x cache_maxsize {1,2,3,big} x dedupe x rules as strings / fresh graphs / graph objects shared between "
         "fits / mixed x semantic options (explicit_h, implicit_temp, strategy bt/all/comp) x pre-filter {none, turbo, sing, nx}; "
         "1-3 fits per reactor (permuted, rotated, shortened, repeated, other direction, fresh list). "
+        "(b-free) result function of one rule application = a random table over (substrate, rule content, direction) with 0..3 results from 6 "
+        "codes; all 3^n rule lists, n <= 4 (thorough 5), over rule objects A, B, A' (A' equal to A in content) x dedupe x cache {off, 1, 2, big} on the "
+        "batch [s0, s1, s0]; random: 1..5 rule objects (contents colliding or not), 1..5 entries of 8 small SMILES (repeats; 25% dicts, one "
+        "dict object at several positions), 1..4 fits per reactor, rule lists [a..]*k, palindromes, random to 12 positions, follow-ups "
+        "same / permuted / rotated / doubled / shortened / other direction, list / tuple / generator / iter / map, one list object for "
+        "equal lists, 0..2 diagnostic calls before a fit, cache off / 1,2,3,4,7,big, one-process spellings of the worker options; "
+        "2 (thorough 20) cases with 257..330 positions. (b'') pivot substrate converted by >= 2 templates, rule-list patterns aa, aba, abab, abba, "
+        "abca, ... and random ones with repeats to length 5 (thorough 7), rules as shared graph objects (mostly) / shared objects mixed with "
+        "strings / fresh graphs / strings, cache on 85%, dedupe off 65%, 1..3 fits; all lists to length 3 (thorough 4, and 3 objects) over two "
+        "shared objects x dedupe x cache {big, 1; thorough also off}; thorough: the same with rule / entry / nested workers. "
         "(c) random item lists (3..9 reaction centres of corpus/c14_reactions.json, with repeats) x attribute {none, element signature, "
         "size} x matcher config {default, element-only}, every batch size 1..N+1, 0, -1 and one shot; templates [] and None. "
         "(c-rep) 3..8 (thorough: also ..14) items built from repeats and isomorphism-class mates x attribute base {node count, "
@@ -2259,7 +2785,8 @@ def run(ctx):
         "input {single string, list of strings/dicts incl. dicts without the column, tuple} x rsmi_column, unparsable sides, a reaction "
         "without '>>'. (e) parallel vs serial. (e') option vectors as listed in the docstring, seeds containing the reactants of a rule.")
     ctx.nontrivial_rule = ("(a) >=2 calls and a release or an identity reuse; (b) >=2 entries and >=1 entry with products; (b') removing any single position of the first rule list changes the "
-                           "reference result of some entry; (c) >=3 items, "
+                           "reference result of some entry; (b-free), (b'') in some fit one rule OBJECT occupies >= 2 positions "
+                           "and that rule alone gives results on some entry of the batch; (c) >=3 items, "
                            "2 <= #classes < #items; (c-rep) as (c) and two positions of one class whose attribute values are equal but print "
                            "differently (or whose graphs are differently typed copies); (c'-rep) as (c') and such a pair among items / templates; (b-err) >=2 entries or an ill-formed rule list; (c') >=2 items, >=1 item put into a class of "
                            "the initial library and >=1 new class; (d),(d'),(e) every case; (e') >=1 reaction node; distinct as JSON values")
@@ -2411,6 +2938,43 @@ def run(ctx):
     ctx.obligation("exploration e: SynCRN.build(parallel=True) == build(parallel=False) (strategy / frontier / de-duplication / "
                    "keep_aam / component and task caps, max_workers 1..4 and default, class and build_syncrn_from_smarts)",
                    nviol(ctx) == ne)
+    lap("e-obligation")
+    # ---- b-free, b'': one object at several positions of an input list.  (Last, so that the populations of the streams above
+    # are, for every seed, what they were before these streams existed.)
+    nbf = nviol(ctx)
+    fcs = gen_free_exhaustive(rnd, 4 if ctx.quick else 5)
+    ctx.count("b-free:exhaustive_cases", len(fcs))
+    fcs += [gen_free_case(rnd) for _ in range(300 if ctx.quick else 6000)]
+    bigs = [gen_free_case(rnd, big=True) for _ in range(2 if ctx.quick else 20)]
+    run_fit_free(ctx, fcs, "exhaustive+random")
+    if nviol(ctx) == nbf:                 # only when the short lists are clean (what breaks those may grow with the list length)
+        run_fit_free(ctx, bigs, ">256 positions")
+    ctx.obligation("correspondence b-free: the real BatchReactor.fit over a free result function (only the single rule application is "
+                   "a table) == the rules applied to each substrate alone (Lean fit model / `single`): ALL rule lists to length "
+                   f"{4 if ctx.quick else 5} over three rule objects (two equal in content) x dedupe x cache off/1/2/big, random sequences "
+                   "of fits on one reactor with diagnostic calls in between, lists of > 256 positions", nviol(ctx) == nbf)
+    lap("b-free")
+    nb3 = nviol(ctx)
+    try:
+        scases = gen_same_exhaustive(rnd, world, 3 if ctx.quick else 4, caches=((True, BIG), (True, 1)) if ctx.quick else None)
+        if not ctx.quick:
+            scases += gen_same_exhaustive(rnd, world, 4, alphabet=3)
+        ctx.count("b'':exhaustive_cases", len(scases))
+        scases += [gen_same_case(rnd, world, pairs, max_len=5 if ctx.quick else 7) for _ in range(24 if ctx.quick else 600)]
+        run_fit(ctx, world, scases, "same-object")
+        if not ctx.quick and nviol(ctx) == nb3:       # with worker processes (b' has the worker settings of the quick tier)
+            wopts = [{"n_jobs": 1, "parallel_rules": True, "rule_n_jobs": 2}, {"n_jobs": 2}] * 3 + \
+                    [{"n_jobs": 1, "parallel_rules": True, "rule_n_jobs": 3}, {"n_jobs": 3},
+                     {"n_jobs": 2, "parallel_rules": True, "rule_n_jobs": 2, "allow_nested": True}] * 2
+            run_fit(ctx, world, [gen_same_case(rnd, world, pairs, o, max_len=5) for o in wopts], "same-object,workers")
+    finally:
+        shutdown_workers()
+    ctx.obligation("correspondence b'': BatchReactor.fit per entry == the rules applied to that substrate alone (SynReactor table via "
+                   "the Lean fit model) when ONE rule graph object occupies several positions of the rule list (the only way the "
+                   "identity-keyed cache hits inside a fit), one entry dict object several positions of the batch, one rule-list "
+                   "object is handed to several fits: all rule lists to length 3 (thorough: 4) over two shared rule objects that "
+                   "both convert one substrate x dedupe x cache, and random ones", nviol(ctx) == nb3)
+    lap("b''")
     ctx.extra["partial"] = ("process start-up, pickling and scheduling of worker processes are outside the model; "
                             "covered by exploration only (streams b with n_jobs>1, d, e)")
 
